@@ -3,13 +3,8 @@ use syn::{spanned::Spanned, Meta};
 
 #[inline]
 pub(crate) fn union_without_unsafe(meta: &Meta) -> syn::Error {
-    let mut s = meta.into_token_stream().to_string();
-
-    match s.len() {
-        9 => s.push_str("(unsafe)"),
-        11 => s.insert_str(10, "unsafe"),
-        _ => unreachable!(),
-    }
+    // the only parameter a union accepts is `unsafe`, so the suggestion is always the same
+    let s = format!("{}(unsafe)", meta.path().into_token_stream());
 
     syn::Error::new(
         meta.span(),
